@@ -20,6 +20,7 @@ from ramses_tx import (
     Command,
     DevType,
     Message,
+    Packet,
     Priority,
     QosParams,
 )
@@ -37,7 +38,7 @@ from .const import (  # noqa: F401, isort: skip, pylint: disable=unused-import
 if TYPE_CHECKING:
     from collections.abc import Iterable
 
-    from ramses_tx import IndexT, Packet
+    from ramses_tx import IndexT
 
     from .device.base import Fakeable
 
@@ -293,6 +294,8 @@ class BindContextRespondent(BindContextBase):
         pkt: Packet = await self._dev._async_send_cmd(  # type: ignore[assignment]
             cmd, priority=Priority.HIGH, qos=BINDING_QOS
         )
+        if pkt is not None and pkt._hdr != cmd.tx_header:  # Confirm overtook the echo
+            pkt = Packet._from_cmd(cmd)  # report the Accept that was sent
 
         self.state.cast_accept_offer()
         return pkt
@@ -378,6 +381,8 @@ class BindContextSupplicant(BindContextBase):
         pkt: Packet = await self._dev._async_send_cmd(  # type: ignore[assignment]
             cmd, priority=Priority.HIGH, qos=BINDING_QOS
         )
+        if pkt is not None and pkt._hdr != cmd.tx_header:  # Accept overtook the echo
+            pkt = Packet._from_cmd(cmd)  # report the Offer that was sent
 
         # await state._fut
         self.state.cast_offer()
